@@ -42,6 +42,18 @@ def oracle(steps, rate, accel, accum, max_ticks):
         a0 = M - 1 if (r1 < 0 or (r1 == 0 and accel < 0)) else 0
     else:
         a0 = int(accum)
+    if accel == 0:
+        # constant rate: S_t = a0 + r t is monotone, so the first tick reaching the budget has a closed form (no tick limit needed)
+        if abs(r) > RMAX:
+            return 'invalid'
+        if r > 0:
+            t = -((a0 - steps * M) // r)                      # ceil((steps*M - a0) / r)
+        else:
+            t = -((-(a0 + steps * M - M + 1)) // (-r))         # ceil((a0 + steps*M - M + 1) / -r)
+        t = max(t, 1)
+        S = a0 + r * t
+        pos = S // M
+        return (t, pos, S - M * pos)
     S, pos, taken = a0, 0, 0
     for t in range(1, max_ticks + 1):
         r += accel
@@ -137,6 +149,12 @@ def inputs(seed, n_random, lattice):
             for acc in (0, M // 2, M - rate % M, (M - 2 * rate) % M):
                 yield (steps, rate, 0, acc)
                 yield (steps, -rate, 0, acc)
+    # (ii-b) constant rate with a large budget: the quotient (2^31 * steps - accumulator) / rate is an integer plus a tiny fraction
+    for steps in (8400000, 2 ** 24 + 1, 2 ** 26 + 3):
+        for rate in (M - 1, -(M - 1), M - 3, -(M - 5)):
+            for acc in (steps - 1, 0, 1, M - 1, 'clear'):
+                yield (steps, rate, 0, acc)
+                yield (-steps, abs(rate), 0, acc)
     # (iii) seeded random
     rnd = random.Random(seed)
     for _ in range(n_random):
